@@ -5,6 +5,7 @@ from pyvc.values import V, Str, Bool, Int, MapSV, SeqV
 fmt = z3.Function('fmt', Str, MapSV, Str)          # s % mapping, when it succeeds
 fmt_ok = z3.Function('fmt_ok', Str, MapSV, Bool)   # every %(key)s of s is a key of the mapping
 wfp = z3.Function('wf_placeholders', Str, Bool)    # s contains `%` only inside well-formed %(name)s
+fmt_rend = z3.Function('fmt_renders', Str, MapSV, Bool)   # every value s refers to can be written by str() (see str_ok)
 is_literal = z3.Function('is_literal', Str, Bool)  # ast.literal_eval(s) succeeds
 litval = z3.Function('litval', Str, V)             # its value
 lit_exc = z3.Function('lit_exc', Str, Int)         # class of the exception it raises otherwise
@@ -15,7 +16,10 @@ jsonlike = z3.Function('jsonlike', V, Bool)        # built from none/bool/int/fl
 # ---- executable twins -------------------------------------------------------------------------
 def py_walk(v, segs, m):
     if not segs:
-        return m == str(v)
+        try:
+            return m == str(v)
+        except ValueError:      # an integer beyond the interpreter's digit limit has no string form
+            return False
     k, rest = segs[0], segs[1:]
     if not isinstance(v, dict) or k not in v:
         return False
